@@ -20,6 +20,8 @@ type c08Case struct {
 	From  int         `json:"from,omitempty"`
 	End   int         `json:"end,omitempty"`
 	List  []gen.Bytes `json:"list,omitempty"`
+	// WordLists: the argument of a ToStrs call given as word lists (elements that are NOT whole bytes)
+	WordLists [][]byte `json:"word_lists,omitempty"`
 	// big strings are named by their byte length (and the flipped byte of the second string)
 	Big  int `json:"big_len,omitempty"`
 	Flip int `json:"flip_byte,omitempty"`
@@ -31,7 +33,7 @@ func init() {
 		Word32: true,
 		Level:  "exploration",
 		Rule: "E1 bounded-exhaustive enumeration, per width n in {1,2,4,8}: (split) every string of length ≤2 over all 256 byte values and of length ≤L over {00,01,7f,80,ff,a5,5a,'a'}: FromStr length and every word, Get at every index, ToStr∘FromStr; " +
-			"(pack) ToStr on every list of in-range words up to a width-dependent length (every partial-last-byte shape); (diff) FirstDiff on every ordered pair of strings of length ≤D over 6 bytes and of length ≤3 over {c3,a9,a8,'a'} and {e6,97,a5,a6} (well-formed 2- and 3-byte UTF-8 sequences differing in a continuation byte) × every from in [0, words+2] × every end in [-1, words+2]; (diff, far windows) the same pairs with from and/or end far beyond both strings: 2^31, 2^32, 2^60, 2^61, 2^62, 3·2^61 (each ±1), MaxInt-1, MaxInt - every from in [0, words+2] ∪ far × every far end, and every far from × every end in [-1, words+2]; (diff, long) FirstDiff on every ordered pair of 48 strings of 8..19 bytes (4 stem variants × 3 tails) and on single-byte flips of bases of EVERY length 1..40 at every byte position × every from × 7 ends; (big) strings of EVERY length 2..600 bytes and of every threshold length up to 2^16 (thorough 2^20) bytes: FromStr/ToStr/Get and FirstDiff against copies with one flipped byte; (lists) FromStrs/ToStrs element-wise (and the FromStrs elements once more after appending a byte to each: results must not alias each other) on every list of ≤3 strings over 4 strings, and on generated lists of every threshold size (round numbers ±1) from 1000 to 70000 strings. " +
+			"(pack) ToStr on every list of in-range words up to a width-dependent length (every partial-last-byte shape); (diff) FirstDiff on every ordered pair of strings of length ≤D over 6 bytes and of length ≤3 over {c3,a9,a8,'a'} and {e6,97,a5,a6} (well-formed 2- and 3-byte UTF-8 sequences differing in a continuation byte) × every from in [0, words+2] × every end in [-1, words+2]; (diff, far windows) the same pairs with from and/or end far beyond both strings: 2^31, 2^32, 2^60, 2^61, 2^62, 3·2^61 (each ±1), MaxInt-1, MaxInt - every from in [0, words+2] ∪ far × every far end, and every far from × every end in [-1, words+2]; (diff, long) FirstDiff on every ordered pair of 48 strings of 8..19 bytes (4 stem variants × 3 tails) and on single-byte flips of bases of EVERY length 1..40 at every byte position × every from × 7 ends; (big) strings of EVERY length 2..600 bytes and of every threshold length up to 2^16 (thorough 2^20) bytes: FromStr/ToStr/Get and FirstDiff against copies with one flipped byte; (lists) ToStrs on every list of ≤3 word lists over every partial-last-byte shape (lengths 0..2·(8/n)+1: elements that are not whole bytes); FromStrs/ToStrs element-wise (and the FromStrs elements once more after appending a byte to each: results must not alias each other) on every list of ≤3 strings over 4 strings, and on generated lists of every threshold size (round numbers ±1) from 1000 to 70000 strings. " +
 			"Oracle: the string's '0'/'1' rendering cut into n-bit groups. A case is one call; non-trivial when the string/list is non-empty.",
 		Assumptions: []string{"from < 0 and end < -1 are outside the statement and not called; long strings over the full byte alphabet are not enumerated"},
 		Run:         c08Run,
@@ -561,6 +563,27 @@ func c08Run(c *mc.Ctx) {
 			lists = append(lists, ks)
 		})
 	}
+	// (lists of word lists) ToStrs on every list of <= 3 word lists over the partial-last-byte shapes: the
+	// elements are NOT whole bytes (ToStrs is defined on words, not only on what FromStrs returns)
+	for _, n := range c08Widths {
+		wl := c08WordLists(n)
+		var cnt int64
+		for l := 0; l <= 3; l++ {
+			gen.Product(len(wl), l, func(ix []int) {
+				arg := make([][]byte, l)
+				for i, x := range ix {
+					arg[i] = wl[x]
+				}
+				if g, w := c08ToStrsWords(n, arg); g != w {
+					c.Fail(4<<50|int64(n)<<40|cnt, "ToStrsWords", "ToStrs/word-lists", c08Case{Width: n, WordLists: append([][]byte(nil), arg...)}, g, w)
+				}
+				cnt++
+			})
+			c.Expect(gen.PowInt(len(wl), l))
+		}
+		c.Count(cnt, cnt-1)
+		c.Add("tostrs_word_list_cases", cnt)
+	}
 	c.Expect(int64(len(lists)) * 4 * 2)
 	for _, n := range c08Widths {
 		for li, ks := range lists {
@@ -600,6 +623,41 @@ func c08Run(c *mc.Ctx) {
 			c.Count(2, nt)
 		}
 	}
+}
+
+// c08WordLists: word lists of width n with every partial-last-byte shape: lengths 0 .. 2·(8/n)+1, the
+// words of list k taken from a pattern that depends on k.
+func c08WordLists(n int) [][]byte {
+	per := 8 / n
+	var out [][]byte
+	for l := 0; l <= 2*per+1; l++ {
+		ws := make([]byte, l)
+		for i := range ws {
+			ws[i] = byte((0xb7>>uint(i%5)+i+l)&(1<<uint(n)-1)) | byte(i&1)
+			ws[i] &= byte(1<<uint(n) - 1)
+		}
+		out = append(out, ws)
+	}
+	return out
+}
+
+// c08ToStrsWords judges one ToStrs call on word lists: element-wise packing.
+func c08ToStrsWords(n int, lists [][]byte) (got, want string) {
+	var w []string
+	arg := make([][]byte, len(lists))
+	for i, ws := range lists {
+		w = append(w, refPack(ws, n))
+		arg[i] = gen.DirtyBytes(ws)
+	}
+	g, p := func() (r []string, p string) {
+		defer func() {
+			if e := recover(); e != nil {
+				p = fmt.Sprint("panic: ", e)
+			}
+		}()
+		return bitword.BitWord[n].ToStrs(arg), ""
+	}()
+	return p + fmt.Sprintf("%d %x", len(g), g), fmt.Sprintf("%d %x", len(w), w)
 }
 
 // c08GenList: n strings of 0..4 bytes whose content depends on their position.
@@ -729,6 +787,8 @@ func c08Judge(kind string, cs c08Case) (got, want string) {
 			return bitword.BitWord[n].FromStrs(ks), ""
 		}()
 		return p + fmt.Sprint(len(g), g), fmt.Sprint(len(w), w)
+	case "ToStrsWords":
+		return c08ToStrsWords(n, cs.WordLists)
 	case "ToStrs":
 		ks := gen.StringsOf(cs.List)
 		var w [][]byte
